@@ -298,6 +298,33 @@ def main():
                 res.fail(f"pressure resultant elem={et}", f"pressure {pr} on a planar face of measure {area}: resultant {F3.tolist()}, expected ±{(pr * area * nhat).tolist()}",
                          dict(elemType=et, sim=kind, A=A.tolist(), thickness=thickness))
 
+    # ---------------- a selection spanning several faces (on a prism mesh: a triangulated cap and an adjacent quadrangle face) ----------------
+    for et in (["PRISM6", "HEXA8", "TETRA4"] if not thorough else ["PRISM6", "PRISM15", "PRISM18", "HEXA8", "HEXA20", "TETRA4", "TETRA10"]):
+        a_, b_, c_ = 2.0, 1.0, 1.5
+        meshs = M.mesh_3d(et, a_, b_, c_, 0.75, 2)
+        Xs = meshs.coord
+        sel = np.unique(np.r_[np.flatnonzero(np.isclose(Xs[:, 2], c_)), np.flatnonzero(np.isclose(Xs[:, 0], a_))])   # top cap + the face x = a
+        rs_ = rng_for(args)
+        perm = list(sel)
+        rs_.shuffle(perm)
+        for form in ("constant", "callable"):
+            ss_ = Simulations.Elastic(meshs, Models.Elastic.Isotropic(3, E=10.0, v=0.25))
+            if form == "constant":
+                ss_.add_surfLoad(np.array(perm), [0.75], ["z"])
+                wantF = 0.75 * (a_ * b_ + b_ * c_)
+                wantMy = -0.75 * (a_ * b_ * a_ / 2 + b_ * c_ * a_)          # M_y = -int x f_z dS about the origin
+            else:
+                ss_.add_surfLoad(np.array(perm), [lambda x, y, z: 0.5 + x], ["z"])
+                wantF = (0.5 * a_ + a_**2 / 2) * b_ + (0.5 + a_) * b_ * c_
+                wantMy = -((0.5 * a_**2 / 2 + a_**3 / 3) * b_ + (0.5 + a_) * a_ * b_ * c_)
+            Fz = np.asarray(ss_.Bc_vector_Neumann(ss_.problemType) if hasattr(ss_, "Bc_vector_Neumann") else 0).ravel().reshape(-1, 3)
+            res.case((et, "cap + side", form))
+            res.count("multi-face selection")
+            gotF, gotMy = Fz[:, 2].sum(), -(Xs[:, 0] * Fz[:, 2]).sum()
+            if abs(gotF - wantF) > 1e-9 * (1 + abs(wantF)) or abs(gotMy - wantMy) > 1e-9 * (1 + abs(wantMy)):
+                res.fail(f"surface load on a selection spanning two faces elem={et}", f"{form} load on the top cap and the face x = {a_}: resultant F_z = {gotF}, expected {wantF}; moment M_y = {gotMy}, expected {wantMy}",
+                         dict(elemType=et, form=form, selection="nodes with z = c or x = a, shuffled"))
+
     # ---------------- beams ----------------
     for et in ["SEG2", "SEG3", "SEG4", "SEG5"]:
         for timo in (False, True):
